@@ -10,6 +10,7 @@ import (
 	"fmt"
 	"math"
 	"math/rand"
+	"sort"
 	"time"
 
 	cs "github.com/lianxiangcloud/linkchain/consensus"
@@ -60,6 +61,23 @@ type absMsg struct {
 	Ba      string `json:"ba"`
 	PolR    int    `json:"polr"`
 	Content string `json:"content"`
+	Sz      string `json:"sz"` // "" (the type has no size dimension) | "small" | "lim-1" | "lim" | "lim+1"
+}
+
+// the reactor's maxMsgSize (consensus/reactor.go; unexported): decodeMsg refuses len(bz) > maxMsgSize. The
+// replay checks the number through the model's "forwarded" label of the messages of exactly this size / one byte more.
+const reactorMaxMsgSize = 1048576
+
+func sizeOf(sz string) int {
+	switch sz {
+	case "lim-1":
+		return reactorMaxMsgSize - 1
+	case "lim":
+		return reactorMaxMsgSize
+	case "lim+1":
+		return reactorMaxMsgSize + 1
+	}
+	return 0
 }
 
 // act is the label of an exported edge.
@@ -73,6 +91,20 @@ type act struct {
 	Direct     string          `json:"direct"`
 	AsIs       string          `json:"asis"`
 	AsIsDirect string          `json:"asisdirect"`
+	Site       string          `json:"site"`
+	WalBig     bool            `json:"walbig"` // the WAL record of this delivery is above the WAL decoder's limit
+	Res        string          `json:"res"`    // own steps: "ok" | "panic"
+	Over       bool            `json:"over"`   // own steps: SetRound runs over an entry that exists already
+}
+
+// ownState is where the node's own steps have taken it (PeerInput.tla, variable own).
+type ownState struct {
+	H         int  `json:"h"`
+	R         int  `json:"r"`
+	Step      int  `json:"step"`
+	Hvr       int  `json:"hvr"`
+	N         int  `json:"n"`
+	Committed bool `json:"committed"`
 }
 
 type projState struct {
@@ -80,6 +112,22 @@ type projState struct {
 	Q       int           `json:"q"`
 	Claim   []interface{} `json:"claim"`
 	Changed string        `json:"changed"`
+	Cat     []int         `json:"cat"`
+	Own     ownState      `json:"own"`
+}
+
+// key identifies a model state (the specification's View without `running`).
+func (p projState) key() string {
+	cat := append([]int{}, p.Cat...)
+	sort.Ints(cat)
+	return fmt.Sprintf("%s|q%d|%s|%s|%v|%+v", p.Cls, p.Q, claimKey(p.Claim), p.Changed, cat, p.Own)
+}
+
+// residueKey identifies the residue part of a model state (what the peer left behind), without the node's own progress.
+func (p projState) residueKey() string {
+	cat := append([]int{}, p.Cat...)
+	sort.Ints(cat)
+	return fmt.Sprintf("q%d|%s|%v", p.Q, claimKey(p.Claim), cat)
 }
 
 type edge struct {
@@ -97,6 +145,7 @@ type concrete struct {
 	bytes  []byte
 	desc   string // the concrete values chosen for symbolic ones
 	rounds []int  // the vote's round (probed in the snapshot)
+	big    bool   // instantiated to an exact size at the reactor's limit
 }
 
 var channelIDs = map[string]byte{"state": cs.StateChannel, "data": cs.DataChannel, "vote": cs.VoteChannel, "bits": cs.VoteSetBitsChannel, "unknown": 0x7f}
@@ -527,12 +576,130 @@ func (in *inst) make(m absMsg) (c concrete, err error) {
 	if err != nil {
 		return c, fmt.Errorf("encode %T: %v", msg, err)
 	}
+	if want := sizeOf(m.Sz); want > 0 && m.Nilc {
+		in.notef("size-ignored(nil component)") // nothing to grow; the reactor does not forward it whatever its size
+	} else if want > 0 {
+		if bz, err = in.sizeTo(msg, m, want); err != nil {
+			return c, err
+		}
+		in.notef("wire-bytes=%d", len(bz))
+		c.big = true
+	}
 	c.ch, c.bytes = ch, bz
 	c.desc = fmt.Sprint(in.note)
 	if vm, ok := msg.(*cs.VoteMessage); ok && vm.Vote != nil {
 		c.rounds = []int{vm.Vote.Round}
 	}
 	return c, nil
+}
+
+// filler is the bulk of the messages instantiated at the reactor's size limit.
+var filler []byte
+
+func fillBytes(rng *rand.Rand, n int) []byte {
+	if len(filler) < n {
+		filler = make([]byte, n+4096)
+		rng.Read(filler)
+	}
+	return filler[:n:n]
+}
+
+// fillElems returns bit-array elements whose encoding takes exactly n bytes: 9 bytes per full element, the
+// last one as wide as the rest requires (the encoding of an integer is as long as the integer is).
+func fillElems(n int) []uint64 {
+	if n < 1 {
+		n = 1
+	}
+	k := (n - 1) / 9
+	w := n - 9*k
+	out := make([]uint64, k+1)
+	for i := 0; i < k; i++ {
+		out[i] = ^uint64(0)
+	}
+	out[k] = 1
+	if w >= 2 {
+		out[k] = 0x80 << uint(8*(w-2))
+	}
+	return out
+}
+
+// sizeTo makes the wire encoding of msg exactly `want` bytes long by growing the one field of the
+// message type that can carry bulk: Part.Bytes, Vote.BlockID.PartsHeader.Hash (the vote then names an
+// unknown block), Proposal.BlockPartsHeader.Hash, the elements of the BitArray of a VoteSetBits /
+// ProposalPOL message. A signature class "valid" is signed again over the grown message.
+func (in *inst) sizeTo(msg cs.ConsensusMessage, m absMsg, want int) ([]byte, error) {
+	b := in.b
+	var pad func(n int) error
+	switch x := msg.(type) {
+	case *cs.BlockPartMessage:
+		if x.Part == nil {
+			x.Part = &types.Part{}
+		}
+		pad = func(n int) error { x.Part.Bytes = fillBytes(in.rng, n); return nil }
+	case *cs.VoteMessage:
+		if x.Vote == nil {
+			return nil, fmt.Errorf("a nil vote cannot be made large")
+		}
+		v := x.Vote
+		v.BlockID = types.BlockID{Hash: randHash(in.rng), PartsHeader: types.PartSetHeader{Total: 1}}
+		pad = func(n int) error {
+			v.BlockID.PartsHeader.Hash = fillBytes(in.rng, n)
+			switch m.Sig {
+			case "who":
+				return b.cl.PVs[in.abs[m.Who]].SignVote(b.cl.ChainID, v)
+			case "other":
+				return b.cl.PVs[in.abs[(m.Who+1)%4]].SignVote(b.cl.ChainID, v)
+			}
+			return nil
+		}
+	case *cs.ProposalMessage:
+		if x.Proposal == nil {
+			return nil, fmt.Errorf("a nil proposal cannot be made large")
+		}
+		p := x.Proposal
+		pad = func(n int) error {
+			p.BlockPartsHeader.Hash = fillBytes(in.rng, n)
+			switch m.Sig {
+			case "proposer":
+				return b.cl.PVs[in.abs[1]].SignProposal(b.cl.ChainID, p)
+			case "other":
+				return b.cl.PVs[in.abs[2]].SignProposal(b.cl.ChainID, p)
+			}
+			return nil
+		}
+	case *cs.VoteSetBitsMessage:
+		pad = func(n int) error {
+			e := fillElems(n)
+			x.Votes = &cmn.BitArray{Bits: 64 * len(e), Elems: e}
+			return nil
+		}
+	case *cs.ProposalPOLMessage:
+		pad = func(n int) error {
+			e := fillElems(n)
+			x.ProposalPOL = &cmn.BitArray{Bits: 64 * len(e), Elems: e}
+			return nil
+		}
+	default:
+		return nil, fmt.Errorf("%T has no size dimension", msg)
+	}
+	n := 70000 // (every length prefix on the way is as wide as at the target size)
+	for i := 0; i < 8; i++ {
+		if err := pad(n); err != nil {
+			return nil, err
+		}
+		bz, err := ser.EncodeToBytesWithType(msg)
+		if err != nil {
+			return nil, fmt.Errorf("encode %T: %v", msg, err)
+		}
+		if len(bz) == want {
+			return bz, nil
+		}
+		n += want - len(bz)
+		if n < 1 {
+			return nil, fmt.Errorf("%T cannot be made %d bytes long", msg, want)
+		}
+	}
+	return nil, fmt.Errorf("%T: no filler length gives exactly %d bytes", msg, want)
 }
 
 // decode is what the reactor's decodeMsg does.
